@@ -117,7 +117,11 @@ EXPORT errno_t _wcsnset_s_chk(wchar_t *restrict dest, rsize_t dmax, wchar_t valu
 #ifdef SAFECLIB_STR_NULL_SLACK
     /* null slack to clear any data */
     dmax -= (rsize_t)(dest - orig_dest);
-    if (dmax && !*dest) /* dmax == 0: dest points behind the buffer now */
+    while (dmax && *dest) { /* n < wcslen(dest): go to the terminator */
+        dmax--;
+        dest++;
+    }
+    if (dmax) /* dmax == 0: dest points behind the buffer now */
         memset(dest, 0, dmax * sizeof(wchar_t));
 #endif
 
